@@ -296,7 +296,19 @@ Definition opt_N_eqb (a b : option N) : bool :=
   | _, _ => false
   end.
 
+(* set-valued queries, observed on a finite universe [univ] of classes:
+   get_subclasses(c), get_superclasses(c), get_type_outside_of(ks) *)
+Definition subclasses_in (g : graph) (univ : list cls) (c : cls) : list cls :=
+  filter (fun d => subcls g d c) univ.
+Definition superclasses_in (g : graph) (univ : list cls) (c : cls) : list cls :=
+  filter (fun d => subcls g c d) univ.
+Definition outside_in (g : graph) (univ : list cls) (ks : list cls) : list cls :=
+  filter (fun d => negb (existsb (fun k => subcls g d k) ks)) univ.
+
 Inductive query :=
+| QSubclasses (univ : list cls) (c : cls) (ans : list cls)
+| QSuperclasses (univ : list cls) (c : cls) (ans : list cls)
+| QOutside (univ : list cls) (ks : list cls) (ans : list cls)
 | QSubclass (c d : cls) (ans : bool)                 (* is_subclass(c, d) *)
 | QPath (a b : cls) (ans : option N)                 (* get_shortest_path_length(a, b) *)
 | QSub (l r : ty) (ans : bool)                       (* is_subtype(l, r) *)
@@ -305,6 +317,9 @@ Inductive query :=
 
 Definition check_query (g : graph) (anyd : N) (q : query) : bool :=
   match q with
+  | QSubclasses u c ans => forall2b N.eqb (subclasses_in g u c) ans
+  | QSuperclasses u c ans => forall2b N.eqb (superclasses_in g u c) ans
+  | QOutside u ks ans => forall2b N.eqb (outside_in g u ks) ans
   | QSubclass c d ans => Bool.eqb (subcls g c d) ans
   | QPath a b ans => opt_N_eqb (sp g a b) ans
   | QSub l r ans => wf g l && wf g r && Bool.eqb (is_subtype g l r) ans
